@@ -125,7 +125,7 @@ PROPS['C03'] = {
     'group': 'plss', 'level': 'proof', 'build_timeout': 2400,
     'explanation': 'PARTIAL (one named gap). Proved for all texts/settings: every successful parse stages at least one tract component and yields exactly one tract per section named; '
                    'illegal default directions raise DefaultNSError/DefaultEWError. TOTALITY, for EVERY text: (1) C03_tract_parser_total -- TractParser (scrubbers, lot and aliquot extraction, lot divisions, '
-                   'aliquot parser) raises nothing under any valid depth setting: the groups read are set on every path of the regenerated patterns (always_set/always_any), aliquots_through never '
+                   'aliquot parser) raises nothing under any valid depth setting: the groups read are set on every path of the regenerated patterns (always_set/always_any), number groups hold 1-3 decimal digits (minw/maxw/csets: within what int() converts -- the model carries CPython\'s 4300-digit limit), aliquots_through never '
                    'exceeds the number of lots, every block cut out by aliquot_unpacker_regex is a string of clean halves/quarters (Engine/RegexLang.v: the language of the pattern bounds what the '
                    'executable matcher consumes) so every component found in it is one of the eight documented ones and C02_core applies; (2) C03_plss_parser_raises -- PLSSParser (preprocessing with every '
                    'scrubber pattern and its own group table, chunking, both finders, marker walk, flags, sec_within, construct_tracts) raises nothing but the documented default-direction errors, EXCEPT '
